@@ -90,7 +90,7 @@ let handle (toks : string list) : string =
            toks t (Machine.TR (nat_of_int (int_of_string j), ch) :: acc)
          | x :: _ -> failwith ("shm: bad token " ^ x) in
        let ts = (match tl with _ntok :: t -> toks t [] | [] -> []) in
-       let (m, obs) = Machine.m_run (Machine.m_init c) ts in
+       let (m, obs) = Machine.m_run_std (Machine.m_init c) ts in
        let loc_s = function Machine.LVer -> "v" | Machine.LGen -> "g" | Machine.LCell i -> "c" ^ string_of_int (int_of_nat i) in
        let kind_s = function Machine.ALoad -> "L" | Machine.AStore -> "S" | Machine.AFence -> "F" | Machine.ACellW -> "W" | Machine.ACellR -> "R" in
        let cells l = String.concat "," (Stdlib.List.map string_of_z l) in
